@@ -404,6 +404,12 @@ inductive Body
   /-- `try: raise E[e] / except BaseException: with save_and_reraise_exception(reraise=…) as ctxt': body`
       and then, after the whole `try` statement (nothing being handled any more), `late` on `ctxt'` -/
   | handleNestThen (e : ExcId) (reraise : Bool) (body late : Body)
+  /-- `with ctxt: body` — the context object `ctxt` already names (made earlier, possibly used before, e.g.
+      created once outside a retry loop) is entered (again): `__enter__` captures whatever is active now,
+      its `reraise` attribute is whatever it was left at, and afterwards `ctxt` still names it -/
+  | enterCur (body : Body)
+  /-- `try: body / except BaseException: pass` -/
+  | swallow (body : Body)
   deriving DecidableEq, Repr
 
 structure Res where
@@ -478,6 +484,15 @@ def exec : Body → Sre → St → Res
       let r2 := exec late (exitCtx r.ctx r.st r.out) s3
       ⟨r2.st, c, r2.out⟩
     | .raised x => ⟨s3, c, .raised x⟩
+  | .enterCur body, c, s =>
+    let r := exec body (enter c s) s                  -- 212-216: always `capture(check=False)`
+    let ex := exitSre .scen r.ctx r.st r.out
+    ⟨ex.1, exitCtx r.ctx r.st r.out, ex.2⟩
+  | .swallow body, c, s =>
+    let r := exec body c s
+    match r.out with
+    | .ok => r
+    | .raised _ => ⟨r.st, r.ctx, .ok⟩                 -- handled (exc_info pushed), `pass`, popped
 
 /-- a whole scenario: `ctxt = save_and_reraise_exception(reraise=flag)` then the body, started
     with no exception being handled -/
@@ -491,6 +506,8 @@ def Body.direct : Body → Bool
   | .handle _ h => h.direct
   | .filterCtx _ _ b => b.direct
   | .rpoe _ b => b.direct
+  | .enterCur _ => true
+  | .swallow b => b.direct
   | _ => false
 
 /-- class of finding N1: a direct `force_reraise()` whose exception cannot leave the body
@@ -501,6 +518,8 @@ def Body.forceCaught (underFilter : Bool) : Body → Bool
   | .handle _ h => h.forceCaught underFilter
   | .filterCtx _ _ b => b.forceCaught true
   | .rpoe _ b => b.forceCaught underFilter
+  | .enterCur b => underFilter || b.forceCaught underFilter    -- its `__exit__` calls force_reraise()
+  | .swallow b => b.forceCaught true
   | _ => false
 
 /-- largest exception id a body mentions (the driver rejects ids that were not declared) -/
@@ -519,6 +538,7 @@ def Body.maxId : Body → Nat
   | .rwc (some (some e)) => e
   | .nestThen _ b l => b.maxId.max l.maxId
   | .handleNestThen e _ b l => e.max (b.maxId.max l.maxId)
+  | .enterCur b | .swallow b => b.maxId
   | _ => 0
 
 end Oslo.Exc
